@@ -67,6 +67,8 @@ def run_all(ctx, props, faults=1):
             # the wire (xorb serialization with the compression the code chooses, shard bytes) is read by the harness's
             # own decoder and judged by the same observation machine
             ("A", "random", 10 * k, {"remote": 1}), ("D", "natural", 6 * k, {"remote": 1}),
+            # ... with several users: global dedup answered with HMAC-keyed shards, filed by the client in its own cache
+            ("U", "random", 12 * k, {"gd": 1, "users": 3, "remote": 1}),
             # the top-level API: data_client::upload_async over files on disk (configuration derived from the endpoint,
             # parallel ingestion through parutils), observed at the loopback server and through the returned pointers
             ("C", "random", 8 * k, {"api": 1}), ("E", "natural", 5 * k, {"api": 1}),
